@@ -34,7 +34,7 @@ FundPrefix == SeqOf(UNION { { [a |-> "Fund", c |-> c, acct |-> u, base |-> b, am
 PlainBase == CHOOSE b \in NAT_A : b \notin SLASH
 ForeignSends == [i \in 1..3 |->
     [a |-> "Transfer", c |-> "A", e |-> IF i = 2 THEN "CA.A" ELSE "AB.A", proto |-> << "v1", "alias", "v2" >>[i],
-     sender |-> "u1", signer |-> IF i = 3 THEN "u3" ELSE "u2", receiver |-> "u2", denom |-> Dn(<<>>, PlainBase), amt |-> i,
+     sender |-> "u1", signer |-> "u2", receiver |-> "u2", denom |-> Dn(<<>>, PlainBase), amt |-> i,   \* (u2 holds the token too)
      to |-> "t", slash |-> FALSE]]
 
 Init == S = InitState /\ sched = <<>> /\ todo = FundPrefix \o ForeignSends
